@@ -73,13 +73,64 @@ def _rel_line(fn, ln):
     return "+%d" % ((ln or fn.line) - fn.line)
 
 
+def _developer_text(prog, f, a):
+    """the text is a string literal or the pattern text a nitro::format object was built with (a literal on the parse path: R04.1)"""
+    from sa.callgraph import lvalue_root
+    u = ir.unwrap(a)
+    if isinstance(u, dict) and u.get("k") == "lit":
+        return True
+    while isinstance(u, dict) and u.get("k") == "call" and u.get("this") is not None and short(u.get("name") or "") in ("begin", "end", "cbegin", "cend", "c_str", "data"):
+        u = ir.unwrap(u["this"])
+    kind, key, _ = lvalue_root(u) if isinstance(u, dict) else ("other", None, None)
+    return kind == "field" and key[1] == "this" and f.file.endswith("format/format.hpp") and (f.cls or "").split("<")[0].endswith("formatter")
+
+
+def _bounded_stack(ctx, prog, cg, entries):
+    """R04.12: libstdc++'s std::regex executor is a backtracking matcher that calls itself once per matched character
+    (_M_dfs -> _M_rep_once_more -> _M_dfs ...): a token of some ten thousand characters - well inside what execve() passes in one
+    argument - exhausts the stack, the process dies with SIGSEGV instead of returning or raising the user-input error."""
+    from .common import regex_runs, fx
+    ctx.rule("R04.12", "stack use on the parse path does not grow with the length of an argument: every std::regex run reachable from parse() is over developer-supplied "
+                       "text (a literal, the pattern text of nitro::format), never over a token, value or environment word; no library function on the path calls itself")
+    reach = cg.reachable([e.id for e in entries])
+    scanned = 0
+    nruns = 0
+    for fid in sorted(reach):
+        f = prog.fn(fid)
+        if f is None or not f.has_cfg or not f.file.startswith("/repo/"):
+            continue
+        scanned += 1
+        for n, nm, subj in regex_runs(f):
+            nruns += 1
+            ok = all(_developer_text(prog, f, a) for a in subj)
+            ctx.check(ok, "R04.12", f, "regex-over-input:%s:%s" % (short(f.qual), nm),
+                      "%s runs std::%s over `%s`, text that comes from the command line or the environment: the matcher recurses once per character, a token of a few ten thousand "
+                      "characters overflows the stack (SIGSEGV, no parsing_error)" % (short(f.qual), nm, ", ".join(fmt(ir.unwrap(a))[:40] for a in subj)), (f, n.get("ln")),
+                      why_ok="over " + ", ".join(fmt(ir.unwrap(a))[:30] for a in subj))
+        # direct or mutual recursion among the library's own functions
+        if fid in cg.edges.get(fid, ()):
+            ctx.bad("R04.12", f, "recursion:%s" % short(f.qual), "%s calls itself on the parse path: its depth follows the input" % short(f.qual), f)
+        else:
+            back = [t for t in cg.edges.get(fid, ()) if t != fid and t in reach and prog.fn(t) is not None and prog.fn(t).file.startswith("/repo/") and fid in cg.reachable([t])]
+            if back:
+                ctx.bad("R04.12", f, "recursion:%s" % short(f.qual), "%s and %s call each other on the parse path: the depth follows the input" % (short(f.qual), short(prog.fn(back[0]).qual)), f)
+    ctx.ok("R04.12", entries[0], "no-recursion-on-parse-path", "%d library functions reachable from parse(), none on a call cycle other than those reported" % scanned, entries[0])
+    ctx.need("R04.12", "library functions reachable from parse()", scanned, 40)
+    g = fx(ctx, "matches_token")
+    ctx.fixture("R04.12", "matches_token", g is not None and any(not all(_developer_text(prog, g, a) for a in subj) for n, nm, subj in regex_runs(g)), True, "regex_match over a parameter recognised")
+    g = fx(ctx, "pattern_holder::has_hole")
+    ctx.fixture("R04.12", "has_hole", g is not None and len(regex_runs(g)) == 1, True, "regex_search over a member recognised as a run")
+    g = fx(ctx, "letters")
+    ctx.fixture("R04.12", "letters", g is not None and g.id in cg.edges.get(g.id, ()), True, "self-recursion recognised")
+
+
 def run(ctx):
     prog = ctx.prog
     cg = callgraph(ctx)
     ctx.rule("R04.1", "no exception type other than parsing_error is reachable from parse() in any calling context")
     ctx.rule("R04.2", "*next / ++it in try_parse_as_option only under next != end")
     ctx.rule("R04.3", "each documented rejection condition has a raising guard of type parsing_error")
-    ctx.rule("R04.4", "the token-syntax regex literal is well-formed")
+    ctx.rule("R04.4", "the token syntax check cannot fail in any other way: a regex literal is well-formed; a check written out by hand reads in bounds, ends only in parsing_error and refuses exactly the malformed dash tokens")
 
     entries = []
     for pid in (PARSE_VEC, PARSE_ARGV):
@@ -327,8 +378,38 @@ def run(ctx):
                             ctx.broken("R04.4", ui, "regex-literal-wellformed", "regex uses a construct outside the modelled ECMAScript subset: %s" % ex, (ui, n.get("ln")))
                         except regexlang.SyntaxError_ as ex:
                             ctx.bad("R04.4", ui, "regex-literal-wellformed", "the validation regex %r is malformed (%s): std::regex_error at run time" % (a0["v"], ex), (ui, n.get("ln")))
+    if nlit == 0 and ui is not None and any(ui.is_noreturn(b) for b in ui.blocks):
+        # the syntax check written out by hand: decided on the finite abstraction of the token space (A10, sa/tokeneval.py)
+        from .common import token_syntax_by_hand, show_token, TOKEN_DOC
+        nlit += 1
+        res, why = token_syntax_by_hand(ctx, ui)
+        if res is None:
+            ctx.broken("R04.4", ui, "token-syntax-decided", "the token check is outside the finite token abstraction: %s" % why, ui)
+        else:
+            V = res["verdicts"]
+            oob = sorted((t for t, v in V.items() if v[0] == "oob"), key=lambda t: (len(t), t))
+            ctx.check(not oob, "R04.4", ui, "token-check-reads-in-bounds",
+                      "for the token `%s` the constructor %s: a read beyond the terminating character" % (show_token(oob[0], res["other"]) if oob else "", V[oob[0]][1] if oob else ""),
+                      (ui, (V[oob[0]][2] or {}).get("ln") if oob else None), why_ok="no abstract token makes the constructor read beyond its terminator (%d tokens)" % len(V))
+            wrong = sorted((t for t, v in V.items() if v[0] == "reject" and v[1] != ALLOWED), key=lambda t: (len(t), t))
+            ctx.check(not wrong, "R04.4", ui, "token-check-raises-parsing-error",
+                      "for the token `%s` the constructor ends in %s instead of the user-input error" % (show_token(wrong[0], res["other"]) if wrong else "", V[wrong[0]][1] if wrong else ""),
+                      (ui, (V[wrong[0]][2] or {}).get("ln") if wrong else None), why_ok="every refusal is %s" % short(ALLOWED))
+            D = regexlang.compile(TOKEN_DOC)
+            off = []
+            for t, v in V.items():
+                dash = t[:1] == b"-" and t != b"--"
+                want = "accept" if (not dash or D.accepts(t)) else "reject"
+                if v[0] in ("accept", "reject") and v[0] != want:
+                    off.append(t)
+            off.sort(key=lambda t: (len(t), t))
+            ctx.check(not off, "R04.4", ui, "token-syntax-boundary",
+                      "the token `%s` is %s, the documented syntax (one or two dashes, a name not starting with '-' or '=', optionally '=' and any value) says the opposite"
+                      % (show_token(off[0], res["other"]) if off else "", "refused" if off and V[off[0]][0] == "reject" else "accepted"), (ui, (V[off[0]][2] or {}).get("ln") if off and V[off[0]][2] else None),
+                      why_ok="refused exactly the dash tokens outside L(%s), %d abstract tokens" % (TOKEN_DOC, len(V)))
     ctx.need("R04.4", "regex literals in user_input's constructor", nlit, 1)
-    ctx.assume("allocation failure, stack exhaustion and regex_error of the complexity/stack kind inside std::regex_match are outside the claim")
+    _bounded_stack(ctx, prog, cg, entries)
+    ctx.assume("allocation failure and stack exhaustion inside the standard library other than through std::regex (R04.12) are outside the claim")
     # ---- R04.7: what is raised can propagate
     ctx.rule("R04.7", "no function on the options path (parser, option kinds, token, optional, string helpers, env::get) is declared noexcept and reaches a raise")
     from .common import rule_noexcept
